@@ -259,6 +259,22 @@ func init() {
 					}
 				}
 			})
+			// the application changes its own tree meanwhile (announcements to subscribers run
+			// concurrently with whatever the malformed traffic makes the stack do)
+			if w.T.Bool(1, 2, "app-changes-tree") {
+				w.Go("app-tree", func() {
+					for i := 1 + w.T.Choose(3, "tree-rounds"); i > 0; i-- {
+						for k := w.T.Choose(8, "tree-delay"); k > 0; k-- {
+							w.Yield("tree-delay")
+						}
+						extra := c07GenLocalEntity(w, pr.L, []uint{9})
+						pr.L.AddEntity(extra)
+						w.Yield("tree")
+						pr.L.RemoveEntity(extra)
+						w.Probe("c05-app-changed-tree")
+					}
+				})
+			}
 			good := pr.Peers[1]
 			w.Go("script:"+good.Name, func() {
 				good.AwaitDiscovery()
